@@ -259,7 +259,7 @@ spif_mbuff_init_from_fd(spif_mbuff_t self, int fd)
     lseek(fd, file_pos, SEEK_SET);
     if (file_size < 0) {
         spif_byteptr_t p;
-        size_t cnt = 0;
+        ssize_t cnt = 0;
 
         D_OBJ(("Unable to seek to EOF -- %s.\n", strerror(errno)));
         self->size = buff_inc;
@@ -268,10 +268,8 @@ spif_mbuff_init_from_fd(spif_mbuff_t self, int fd)
 
         for (p = self->buff; (cnt = read(fd, p, buff_inc)) > 0; p = self->buff + self->len) {
             self->len += cnt;
-            if (cnt < buff_inc) {
-                break;
-            } else {
-                self->size += buff_inc;
+            if (self->size - self->len < (spif_memidx_t) buff_inc) {
+                self->size = self->len + buff_inc;
                 self->buff = (spif_byteptr_t) REALLOC(self->buff, self->size);
             }
         }
